@@ -309,9 +309,56 @@ def background_at_centroid(rep, c, cat):
             return
 
 
+def detection_catalog_probe(rep, r, c):
+    """(S) with a detection catalogue (same segmentation image, its own image / mask) the photometric columns are still the defining
+    formulas on THIS catalogue's unmasked finite segment pixels (centroids, shapes and `area` come from the detection catalogue by
+    design); with a local background, segment_flux = sum(data - local_background) over those pixels"""
+    from photutils.segmentation import SourceCatalog, SegmentationImage
+    det_mask = gens.mask(r, c['ny'], c['nx'])
+    det_data = gens.image(r, c['ny'], c['nx'], special=0.2, palette=0.3)
+    lw = r.choice([0, 0, 3])
+    rp = dict(replay_of(c), detection_data=det_data.tolist(), detection_mask=None if det_mask is None else det_mask.astype(int).tolist(), localbkg_width=lw)
+    with warnings.catch_warnings():
+        warnings.simplefilter('ignore')
+        try:
+            det = SourceCatalog(det_data, SegmentationImage(c['seg'].copy()), mask=det_mask, localbkg_width=lw)
+            cat = SourceCatalog(c['data'], SegmentationImage(c['seg'].copy()), error=c['err'], mask=c['mask'], background=c['bkg'],
+                                detection_cat=det, localbkg_width=lw)
+            vals = {nm: np.atleast_1d(np.asarray(getattr(getattr(cat, nm), 'value', getattr(cat, nm)), float))
+                    for nm in ('segment_flux', 'segment_fluxerr', 'min_value', 'max_value', 'background_sum', 'local_background')}
+            labels = [int(v) for v in np.atleast_1d(cat.labels)]
+        except Exception as e:                                  # noqa: BLE001
+            rep.violation(f'catalog-raises:detection_cat:{type(e).__name__}', f'SourceCatalog(detection_cat=...) raised {e!r}', rp)
+            return
+    rep.case(('detcat', c['seg'].tobytes(), c['data'].tobytes(), lw), True, kind=f'detection_cat:localbkg{lw}')
+    rep.probe_only += 1
+    for i, lab in enumerate(labels):
+        good = (c['seg'] == lab) & np.isfinite(c['data'])
+        if c['mask'] is not None:
+            good &= ~c['mask']
+        if not good.any():
+            exp = dict(segment_flux=np.nan, min_value=np.nan, max_value=np.nan)
+        else:
+            v = c['data'][good]
+            lb = vals['local_background'][i] if lw else 0.0
+            exp = dict(segment_flux=float((v - lb).sum()), min_value=float(v.min() - lb), max_value=float(v.max() - lb))
+            if c['err'] is not None:
+                exp['segment_fluxerr'] = float(np.sqrt((c['err'][good] ** 2).sum()))
+            if c['bkg'] is not None:
+                exp['background_sum'] = float(c['bkg'][good].sum())
+        for nm, e in exp.items():
+            g = float(vals[nm][i])
+            if not close(e, g, rel=1e-9, scale=10):
+                rep.violation(f'column-ne-definition:detection_cat:{nm}', f'label {lab} with a detection catalogue: {nm} = {g} but the defining formula on this '
+                              f"catalogue's unmasked finite segment pixels gives {e}", dict(rp, label=lab))
+                return
+
+
 def probes(rep, r, c, cat, rows):
     """(S) metamorphic relations on the implementation, all default columns (kron etc. included)"""
     background_at_centroid(rep, c, cat)
+    if r.random() < 0.5:
+        detection_catalog_probe(rep, r, c)
     if r.random() > 0.35:
         return
     labs, base = table_of(cat, DEFAULT_COLS)
